@@ -109,3 +109,95 @@ pub fn dist_to_sym_closed(dist: u32) -> (u32, u32, u32) {
         (2 * k + ((x >> e) & 1), e, x & ((1 << e) - 1))
     }
 }
+
+/// Result of the reference stored-block decoder.
+#[derive(Clone, Copy)]
+pub struct StoredDecoded {
+    /// no format violation seen in the bytes examined (only BTYPE=00 blocks are understood)
+    pub ok: bool,
+    /// a final block was seen (and, for zlib, a matching Adler-32 trailer)
+    pub complete: bool,
+    pub data: [u8; 16],
+    pub n: usize,
+    /// bytes of `buf` that belong to complete blocks (+ header/trailer)
+    pub consumed: usize,
+    pub blocks: usize,
+    pub finals: usize,
+    /// the bytes after the last complete block are a proper prefix of a block (or nothing)
+    pub tail_is_prefix: bool,
+}
+
+/// Independent decoder for the stored-block subset of RFC 1951 (+ RFC 1950 framing):
+/// blocks are `[BFINAL | 00 << 1 (5 pad bits = anything)] LEN NLEN data`. Decodes as many
+/// complete blocks as `buf` holds. At most 6 blocks / 16 payload bytes (harness bound).
+pub fn stored_decode_ref(buf: &[u8], zlib: bool) -> StoredDecoded {
+    let mut r = StoredDecoded { ok: true, complete: false, data: [0; 16], n: 0, consumed: 0, blocks: 0, finals: 0, tail_is_prefix: true };
+    let mut pos = 0usize;
+    if zlib {
+        if buf.len() < 2 {
+            return r;
+        }
+        if !rfc1950_header_ok(buf[0] as u32, buf[1] as u32) {
+            r.ok = false;
+            return r;
+        }
+        pos = 2;
+        r.consumed = 2;
+    }
+    let mut b = 0;
+    while b < 6 {
+        if pos >= buf.len() {
+            return r;
+        }
+        let h = buf[pos];
+        if (h >> 1) & 3 != 0 {
+            r.ok = false; // not a stored block
+            return r;
+        }
+        if pos + 5 > buf.len() {
+            return r;
+        }
+        let len = buf[pos + 1] as usize | ((buf[pos + 2] as usize) << 8);
+        let nlen = buf[pos + 3] as usize | ((buf[pos + 4] as usize) << 8);
+        if len != (!nlen & 0xFFFF) {
+            r.ok = false;
+            return r;
+        }
+        if pos + 5 + len > buf.len() {
+            return r;
+        }
+        if r.n + len > 16 {
+            r.ok = false; // beyond the harness bound
+            return r;
+        }
+        let mut i = 0;
+        while i < len {
+            r.data[r.n + i] = buf[pos + 5 + i];
+            i += 1;
+        }
+        r.n += len;
+        pos += 5 + len;
+        r.blocks += 1;
+        r.consumed = pos;
+        if h & 1 == 1 {
+            r.finals += 1;
+            if zlib {
+                if pos + 4 > buf.len() {
+                    return r;
+                }
+                let t = u32::from_be_bytes([buf[pos], buf[pos + 1], buf[pos + 2], buf[pos + 3]]);
+                if t != adler32_ref(1, &r.data[..r.n]) {
+                    r.ok = false;
+                    return r;
+                }
+                r.consumed = pos + 4;
+            }
+            r.complete = true;
+            r.tail_is_prefix = r.consumed == buf.len();
+            return r;
+        }
+        b += 1;
+    }
+    r.ok = false;
+    r
+}
